@@ -198,7 +198,9 @@ CHECKS = {
         "des_encrypt_block/int_block/expand/shrink, compile_hmac (single and multipart), pbkdf1, pbkdf2_hmac and saslprep are compared with those values; "
         "Blowfish.tla (Schneier's cipher and Provos/Mazieres' EksBlowfish setup, its tables derived from pi by the harness; self-tested on the all-zero vector and "
         "against the bcrypt C library) gives plain Blowfish blocks and whole bcrypt cores (costs 4..6, keys 0..100 bytes) compared with BlowfishEngine and raw_bcrypt; in addition "
-        "the bcrypt core is decided single-valued across passlib's engine, the bcrypt C library and libxcrypt over a wider sweep by Trace_Func.tla.",
+        "the bcrypt core is decided single-valued across passlib's engine, the bcrypt C library and libxcrypt over a wider sweep by Trace_Func.tla. "
+        "Extension run in the same check: HashNames.tla (the names through which HMAC/PBKDF2 reach their digest and the HashInfo record cache) - names of "
+        "5623 token spellings decided by TLC and compared with lookup_hash, simulated lookup/refusal/clear_cache histories replayed with record identities.",
    note="Trusted: TLC, the transcriptions (each validated against an independent provider before use), hashlib/OpenSSL, libxcrypt, bcrypt-C, "
         "Python's stringprep/unicodedata tables. NFKC is abstract in SaslPrep.tla.",
    technique="TLA+ transcriptions of the standards (Md4, Salsa, Des, Blowfish, Hmac, SaslPrep) evaluated by TLC as oracle + replay on the built-in primitives; Trace_Func single-valuedness for bcrypt"),
